@@ -4,6 +4,7 @@ A Surfer ASCII grid is modelled as: line 1 (free text), four header lines whose 
 tokens have symbolic numeric values, and a body that numpy.loadtxt turns into a (rows, cols) float
 array. String parsing itself (str.split/strip, int()/float() of a token, loadtxt) is ASSUMED."""
 from .arr import SymArr, havoc_array, new_array
+from .core import Proxy  # noqa
 from .core import SymNum, Unsupported, ctx, is_sym
 
 
@@ -11,7 +12,7 @@ def _use(name):
     ctx().used_prelude.add("io." + name)
 
 
-class SymToken:
+class SymToken(Proxy):
     """One whitespace-separated token of a header line, with its numeric value."""
 
     def __init__(self, value, is_int):
@@ -34,7 +35,7 @@ class SymToken:
         return v
 
 
-class SymLine:
+class SymLine(Proxy):
     def __init__(self, tokens=None, text=None):
         self.tokens, self.text = tokens, text
 
@@ -49,7 +50,7 @@ class SymLine:
         return list(self.tokens)
 
 
-class SymFile:
+class SymFile(Proxy):
     """An open text file positioned at the start of a Surfer grid."""
 
     def __init__(self, header_lines, body, name=None):
